@@ -41,7 +41,9 @@ Inductive kind :=
 | KHidden (h : hidden)               (* yaqltypes.Engine() / Context(): injected, never bound from the call *)
 | KLambda                            (* yaqltypes.Lambda(): lazy, accepts anything *)
 | KExpr                              (* yaqltypes.YaqlExpression(): lazy, accepts expressions only *)
-| KTyped (t : tag) (nullable : bool). (* PythonType(class t, nullable) *)
+| KTyped (t : tag) (nullable : bool)  (* PythonType(class t, nullable) *)
+| KConstant (nullable : bool)        (* yaqltypes.Constant(nullable): accepts constant expressions only *)
+| KMapRule.                          (* yaqltypes.MappingRule(): lazy, accepts `a => b` expressions only *)
 Inductive star := SNone | SArgs | SKwargs.   (* dictionary key: the name / '*' / '**' *)
 
 Record param := {
@@ -145,7 +147,7 @@ Fixpoint all_some {A} (l : list (option A)) : option (list A) :=
   end.
 
 Definition is_hidden (k : kind) : bool := match k with KHidden _ => true | _ => false end.
-Definition is_lazy (k : kind) : bool := match k with KLambda | KExpr => true | _ => false end.
+Definition is_lazy (k : kind) : bool := match k with KLambda | KExpr | KMapRule => true | _ => false end.
 Definition arg_name (p : param) : Z := match palias p with Some a => a | None => pname p end.
 Definition is_sargs (p : param) : bool := match pstar p with SArgs => true | _ => false end.
 Definition is_skwargs (p : param) : bool := match pstar p with SKwargs => true | _ => false end.
@@ -188,6 +190,8 @@ Definition check (k : kind) (a : arg) : bool :=
       | ANoValue => check_val t n VMarker
       | AExpr _ _ | AMapC _ _ | AMapE _ _ _ => true      (* checked after evaluation *)
       end
+  | KConstant n => match a with AConst _ => true | ARaw VNull => n | _ => false end
+  | KMapRule => match a with AMapC _ _ | AMapE _ _ _ => true | _ => false end
   end.
 
 (* value_type.convert(...) for a value that passed check *)
@@ -202,6 +206,8 @@ Definition convert (k : kind) (a : arg) : bval :=
       | ANoValue => BVal VMarker
       | _ => BExprObj a
       end
+  | KConstant _ => match a with AConst v => BVal v | _ => BVal VNull end
+  | KMapRule => BVal (VOther (-1))       (* a utils.MappingRule object with lazily evaluated sides *)
   end.
 
 Definition checked (p : param) (a : arg) : option bval :=
